@@ -186,6 +186,15 @@ FullSyncZeroCopy<SlotType, OgreAllocatorType, BUFFER_SIZE> {
 
 
 
+/// verification hooks: gives the external harness access to the components (to name their shared cells)
+#[cfg(feature = "verif")]
+impl<SlotType:          Debug + Send + Sync,
+     OgreAllocatorType: BoundedOgreAllocator<SlotType>,
+     const BUFFER_SIZE: usize>
+FullSyncZeroCopy<SlotType, OgreAllocatorType, BUFFER_SIZE> {
+    pub fn verif_parts(&self) -> (&OgreAllocatorType, &FullSyncMove<u32, BUFFER_SIZE>) { (&self.allocator, &self.queue) }
+}
+
 #[cfg(any(test,doc))]
 mod tests {
     //! Unit tests for [full_sync_zero_copy](super) module
